@@ -1957,6 +1957,7 @@ func (n *node) unregisterEvent(name gen.Atom, pid gen.PID) error {
 		return gen.ErrEventOwner
 	}
 
+	lib.VerifPoint("unevent.delete", ev)
 	n.events.Delete(ev)
 	n.RouteTerminateEvent(ev, gen.ErrUnregistered)
 	return nil
